@@ -402,6 +402,20 @@ Proof.
   vm_compute. split; reflexivity.
 Qed.
 
+(* ---- where "the service's keep-next-hop-route setting" comes from (main.go toKeepNextHopRoute): the service's own
+        text decides whenever it is not empty, whatever the environment says; only an empty text falls back to the
+        environment variable ---- *)
+Theorem C13_keep_setting_decides : forall setting env, setting <> [] ->
+  to_keep_next_hop_route setting env = truthy setting.
+Proof. intros setting env N. unfold to_keep_next_hop_route. destruct setting; [contradiction|reflexivity]. Qed.
+Theorem C13_keep_env_default : forall env, to_keep_next_hop_route [] env = truthy env.
+Proof. reflexivity. Qed.
+Example ex_keep_setting :
+  to_keep_next_hop_route (s2b "false") (s2b "true") = false /\ to_keep_next_hop_route (s2b "Yes") (s2b "0") = true /\
+  to_keep_next_hop_route [] (s2b "ON") = true /\ to_keep_next_hop_route [] [] = false /\ to_keep_next_hop_route (s2b "maybe") (s2b "1") = false.
+Proof. vm_compute. repeat split; reflexivity. Qed.
+
+Print Assumptions C13_keep_setting_decides.
 Print Assumptions try_remove_top_route_pops_iff_own.
 Print Assumptions next_hop_by_route_pops_iff_not_keep.
 Print Assumptions next_request_hop_route.
